@@ -12,8 +12,28 @@ J = jnp.asarray
 # ---------------------------------------------------------------------------
 # parameter batches (NumPy).  vi = catalogue index, R = batch size.
 # ---------------------------------------------------------------------------
+HARD = 50  # value index of the "hard but legal" catalogue entries (cond ~1e3, strong correlation, far means)
+
+
+def idx(dims, k=0):
+    """An index argument in one of the accepted array types (jnp int64, NumPy, jnp int32), chosen by k."""
+    return [lambda: jnp.array(dims), lambda: np.array(dims), lambda: jnp.array(dims, dtype=jnp.int32), lambda: np.array(dims, dtype=np.int32)][k % 4]()
+
+
 def spd_batch(D, R, vi, seed=None, tag=(), diag=False, thin=True):
     """[R,D,D].  vi < len(cat): catalogue entries; vi >= len(cat): seed-generic."""
+    if vi == HARD:
+        out = []
+        for r in range(R):
+            if diag or D == 1:
+                d = np.array([10.0 ** (-1.5 + 3.0 * ((i + r) % D) / max(1, D - 1)) for i in range(D)]) if D > 1 else np.array([[0.01, 100.0, 1.0][r % 3]])
+                out.append(np.diag(d))
+            else:
+                rho = [0.999, 0.99, 0.9995, 0.995][r % 4]
+                C = np.full((D, D), rho) + (1 - rho) * np.eye(D)
+                sd = np.array([1.0 + 0.5 * ((i + r) % 3) for i in range(D)])
+                out.append(C * sd[:, None] * sd[None, :])
+        return np.array(out)
     cat = al.diag_catalogue(D) if diag else al.spd_catalogue(D, thin=thin)
     if vi < len(cat):
         return np.array([al.pick(cat, vi, r) for r in range(R)])
@@ -28,6 +48,8 @@ def spd_batch(D, R, vi, seed=None, tag=(), diag=False, thin=True):
 
 
 def vec_batch(D, R, vi, seed=None, tag=()):
+    if vi == HARD:
+        return np.array([[50.0 * (-1.0) ** (i + r) * (1.0 + 0.1 * i) for i in range(D)] for r in range(R)])
     cat = al.vec_catalogue(D)
     if vi < len(cat):
         return np.array([al.pick(cat, vi, r) for r in range(R)])
@@ -36,6 +58,8 @@ def vec_batch(D, R, vi, seed=None, tag=()):
 
 
 def lnb_batch(R, vi, seed=None, tag=()):
+    if vi == HARD:
+        return np.array([[-3.0, 2.5, 0.0][r % 3] for r in range(R)])
     if vi < len(al.LNB_CAT):
         return np.array([al.LNB_CAT[(vi + r) % len(al.LNB_CAT)] for r in range(R)])
     rng = al.rng_for(seed, "lnb", R, vi, *tag)
